@@ -19,6 +19,33 @@ theorem pentagon_not_shortest :
   refine ⟨_, rfl, ?_⟩
   decide
 
+/-- the stale entry behind the detour: node 2 holds `(3, 0, 3)` — three steps via node 0 — although node 3 is two links
+away; node 2 was refreshed before its neighbour 4 had learnt about the new link 3–4
+(`Props/C20Graph.lean: shortest_if_steps_not_stale` — a non-shortest route needs a stale entry at its source) -/
+theorem pentagon_stale_entry :
+    ∃ g, build 7 pentagon = some g ∧ lookupRoute (get g 2).routes 3 = some ⟨3, 0, 3⟩ := by
+  refine ⟨_, rfl, ?_⟩
+  decide
+
+/-- the `n`-ring assembled as two arms from node 0 (`0–1–3–5–…`, `0–2–4–…`) and closed LAST by the link `(n-2) + (n-1)` -/
+def ringHist (n : Nat) : List (Nat × Nat) :=
+  [(0, 1), (0, 2)] ++ (List.range (n - 3)).map (fun k => (k + 1, k + 3)) ++ [(n - 2, n - 1)]
+
+/-- the detour grows with the ring: `n - 3` and `n - 2` are two links apart (through `n - 1`) but are routed the long way
+round, `n - 2` hops.  With `graph_path_simple` (at most `n - 1` hops on `n` nodes) this brackets the worst case:
+stretch between `(n - 2) / 2` and `(n - 1) / 2`. -/
+def ringDetour (n : Nat) : Bool :=
+  match build (n + 2) (ringHist n) with
+  | none => false
+  | some g =>
+    match path (n + 2) g (n - 3) (n - 2) with
+    | .ok p => p.length == n - 1 && linkedB (ringHist n) (n - 3) (n - 1) && linkedB (ringHist n) (n - 1) (n - 2)
+    | _ => false
+
+theorem ring_detours : (ringDetour 5 && ringDetour 6 && ringDetour 7 && ringDetour 8) = true := by decide +kernel
+
+example : ringHist 5 = pentagon := by decide
+
 /-! ## registry layer: where the link method is stored matters
 
 `convert_resolves` (Props/C20Registry.lean) needs every executed site to store the method of each link it inserts
